@@ -561,7 +561,8 @@ pub fn exec_line(sess: &mut Session, line: &str) -> String {
                 .split(',')
                 .map(|c| msi::Language::from_code(c.parse().unwrap()))
                 .collect();
-            let v = msi::Value::from(&langs[..]);
+            // (a single language goes through its own conversion: the same text as a list of one)
+            let v = if langs.len() == 1 && toks[1].len() % 2 == 0 { msi::Value::from(langs[0]) } else { msi::Value::from(&langs[..]) };
             let ok = msi::Category::Language.validate(v.as_str().unwrap());
             format!("{} {}", V::of_msi(&v).tok(), ok as i32)
         }
